@@ -704,6 +704,48 @@ Section Proofs.
   Lemma sim_empty f : sim {| st_mem := empty_mem; st_file := f |} [].
   Proof. split; [intros k e []|]. split; [reflexivity|discriminate]. Qed.
 
+  (* ----- DynamicStore ----- *)
+  Notation ds_step := (ds_step b64enc b64dec).
+  Notation ds_run := (ds_run b64enc b64dec).
+
+  (* an address that is routed to a native helper never touches the store or the file *)
+  Lemma ds_native_untouched allow helpers st o h :
+    ds_route helpers st (op_addr o) = Some h -> (forall s, o <> SetCs s) ->
+    ds_step allow helpers st o = (st, RNative).
+  Proof. intros R NS. destruct o as [a|a c|a|s]; cbn [CredFile.ds_step op_addr] in *; try now rewrite R. now elim (NS s). Qed.
+
+  (* with no credential helper and no credsStore configured, the DynamicStore IS the file
+     store with DisablePut = not AllowPlaintextPut, over every history of Get/Put/Delete *)
+  Definition dyn_op (o : op) : Prop := match o with SetCs _ => False | _ => True end.
+
+  Lemma ds_step_file allow helpers st o :
+    (forall a, helper_of helpers a = []) ->
+    m_cs (st_mem st) = [] -> dyn_op o ->
+    ds_step allow helpers st o = fs_step (negb allow) st o.
+  Proof.
+    intros NH CS D. destruct o as [a|a c|a|s]; cbn [CredFile.ds_step]; try contradiction;
+      unfold ds_route; rewrite (NH a), CS; reflexivity.
+  Qed.
+
+  Lemma fs_step_cs dp st o : dyn_op o -> m_cs (st_mem (fst (fs_step dp st o))) = m_cs (st_mem st).
+  Proof.
+    destruct o as [a|a c|a|s]; cbn [dyn_op]; try contradiction; intros _; cbn [CredFile.fs_step].
+    - reflexivity.
+    - destruct dp; [reflexivity|]. cbn [CredFile.step]. destruct (negb (put_accepts a c)); reflexivity.
+    - cbn [CredFile.step]. destruct (lookup a (m_cache (st_mem st))); reflexivity.
+  Qed.
+
+  Lemma ds_run_file allow helpers h : forall st,
+    (forall a, helper_of helpers a = []) ->
+    m_cs (st_mem st) = [] -> Forall dyn_op h ->
+    ds_run allow helpers st h = fs_run (negb allow) st h.
+  Proof.
+    induction h as [|o h IH]; intros st NH CS F; [reflexivity|].
+    inversion F as [|? ? D F']; subst. cbn [CredFile.ds_run CredFile.fs_run].
+    rewrite (ds_step_file allow helpers st o NH CS D).
+    apply IH; [exact NH| |exact F']. rewrite fs_step_cs by exact D. exact CS.
+  Qed.
+
   (* ----- reopening the saved file gives a store with the same secrets ----- *)
   Lemma reopen f st0 h :
     open_store f = Some st0 ->
